@@ -301,6 +301,43 @@ Qed.
 Lemma frame_rows_empty f : nrows f = 0%nat -> frame_rows_cells f = [].
 Proof. intros H. unfold frame_rows_cells, rows. now rewrite H. Qed.
 
+(* a rectangular frame has one row map per row index *)
+Lemma all_some_is_some {A} (l : list (option A)) :
+  (forall x, In x l -> x <> None) -> exists r, all_some l = Some r.
+Proof.
+  induction l as [|x l IH]; intros H; [now exists []|].
+  destruct x as [a|]; [|exfalso; apply (H None); [now left | reflexivity]].
+  destruct IH as [r Hr]; [intros y Hy; apply H; now right|].
+  exists (a :: r). cbn [all_some]. now rewrite Hr.
+Qed.
+
+Lemma frow_some f i : rect f = true -> (i < nrows f)%nat -> exists r, frow f i = Some r.
+Proof.
+  intros Hr Hi. unfold frow. apply Nat.ltb_lt in Hi. rewrite Hi. apply all_some_is_some.
+  intros x Hx. apply in_map_iff in Hx. destruct Hx as [[k c] [<- Hin]]. cbn [fst snd].
+  unfold rect in Hr. rewrite forallb_forall in Hr. specialize (Hr _ Hin). cbn [snd] in Hr.
+  apply Nat.eqb_eq in Hr. apply Nat.ltb_lt in Hi.
+  rewrite (nth_opt_nth (cdata c) i CNil) by lia. discriminate.
+Qed.
+
+Lemma flat_map_some_length {A B} (g : A -> option B) (l : list A) :
+  (forall i, In i l -> exists r, g i = Some r) ->
+  List.length (flat_map (fun i => match g i with Some r => [r] | None => [] end) l) = List.length l.
+Proof.
+  induction l as [|a l IH]; intros H; [reflexivity|].
+  cbn [flat_map]. rewrite app_length, IH by (intros i Hi; apply H; now right).
+  destruct (H a (or_introl eq_refl)) as [r ->]. reflexivity.
+Qed.
+
+Lemma rows_length f : rect f = true -> List.length (rows f) = nrows f.
+Proof.
+  intros Hr. unfold rows. rewrite flat_map_some_length; [apply seq_length|].
+  intros i Hi. apply in_seq in Hi. apply frow_some; [assumption | lia].
+Qed.
+
+Lemma expected_rows_length tcols f : rect f = true -> List.length (expected_rows tcols f) = nrows f.
+Proof. intros Hr. unfold expected_rows. rewrite map_length. now apply rows_length. Qed.
+
 (* ------------------------------------------------------------------------- *)
 (* options                                                                    *)
 (* ------------------------------------------------------------------------- *)
@@ -637,6 +674,29 @@ Example ex_effect :
               [[CI KInt64 1; CS (lit "x")]; [CNil; CS (lit "y")]; [CI KInt64 3; CNil]]), true).
 Proof. vm_compute. repeat split. Qed.
 
+Definition ex_store : store :=
+  [(lit "t", ([(lit "a", lit "INTEGER"); (lit "b", lit "TEXT")], [[CI KInt64 9; CS (lit "old")]]));
+   (lit "u", ([(lit "z", lit "REAL")], [[CF KF64 (FFin 0)]]))].
+Definition ex_opts_with (ife : str) : wopts :=
+  {| w_has := true; w_ifexists := ife; w_dialect := lit "sqlite"; w_batch := 2; w_typemap := None |}.
+Example ex_effect_replace_append :
+  sorted_keys (fkeys ex_store) = true /\ fhas ex_store (lit "t") = true
+  /\ resolve_opts (ex_opts_with s_replace) = Ok (DSqlite, s_replace, 2, None)
+  /\ resolve_opts (ex_opts_with s_append) = Ok (DSqlite, s_append, 2, None)
+  /\ (let '(tr, st', ok) := tosql (ex_opts_with s_replace) (lit "t") ex_frame ex_store 0 0 in
+      (map kind_of tr, option_map snd (fget st' (lit "t")), fget st' (lit "u"), ok))
+     = ([0; 1; 2; 2; 2; 2; 3]%N,
+        Some [[CI KInt64 1; CS (lit "x")]; [CNil; CS (lit "y")]; [CI KInt64 3; CNil]],
+        fget ex_store (lit "u"), true)
+  /\ (let '(tr, st', ok) := tosql (ex_opts_with s_append) (lit "t") ex_frame ex_store 0 0 in
+      (map kind_of tr, option_map snd (fget st' (lit "t")), fget st' (lit "u"), ok))
+     = ([0; 1; 2; 2; 3]%N,
+        Some [[CI KInt64 9; CS (lit "old")]; [CI KInt64 1; CS (lit "x")]; [CNil; CS (lit "y")]; [CI KInt64 3; CNil]],
+        fget ex_store (lit "u"), true)
+  /\ tosql (ex_opts_with s_fail) (lit "t") ex_frame ex_store 0 0
+     = ([c_begin; (1%N, exists_sql DSqlite, [CS (lit "t")]); c_rollback], ex_store, false).
+Proof. vm_compute. repeat split. Qed.
+
 Print Assumptions chunks_concat.
 Print Assumptions chunks_bounds.
 Print Assumptions ph_indices.
@@ -648,3 +708,4 @@ Print Assumptions tosql_effect_absent.
 Print Assumptions tosql_effect_replace.
 Print Assumptions tosql_effect_append.
 Print Assumptions tosql_effect.
+Print Assumptions expected_rows_length.
